@@ -172,6 +172,8 @@ static void push_evt(m_mod_t *mod, evt_priv_t *evt) {
             if (mod->tb.tokens < mod->tb.burst) {
                 mod->tb.tokens++;
             }
+            /* A refill is not a reason to hand over the events accumulated so far (eg: low priority ones) */
+            return;
         }
     } else {
         m_queue_enqueue(mod->batch.events, evt);
